@@ -652,6 +652,46 @@ impl<'a> Th<'a> {
                     None => Some(0),
                 }
             }
+            TrackDropUnwind { k } => {
+                let full = unsafe { &*o.track_flags[k as usize].0.get() }.swap(0, StdOrd::SeqCst) == 1;
+                let t = if full { lock(&o.tracks[k as usize]).take() } else { None };
+                let r = t.is_some() as i64;
+                if let Some(t) = t {
+                    let _ = std::panic::catch_unwind(std::panic::AssertUnwindSafe(move || {
+                        let _released_by_unwinding = t;
+                        panic!("harness: caught panic that releases a tracked value");
+                    }));
+                }
+                Some(r)
+            }
+            DeallocUnwind { k } => {
+                let full = unsafe { &*o.alloc_flags[k as usize].0.get() }.swap(0, StdOrd::SeqCst) == 1;
+                let p = if full { lock(&o.allocs[k as usize]).take() } else { None };
+                match p {
+                    Some(p) => {
+                        struct Free(SendPtr);
+                        impl Drop for Free {
+                            fn drop(&mut self) {
+                                unsafe { loom::alloc::dealloc(self.0 .0, LAYOUT) };
+                            }
+                        }
+                        let _ = std::panic::catch_unwind(std::panic::AssertUnwindSafe(move || {
+                            let _freed_by_unwinding = Free(p);
+                            panic!("harness: caught panic that frees a tracked block");
+                        }));
+                        Some(1)
+                    }
+                    None => Some(0),
+                }
+            }
+            ArcDropUnwind { x } => {
+                let h = self.arcs[x as usize].pop().expect("ArcDropUnwind without handle");
+                let _ = std::panic::catch_unwind(std::panic::AssertUnwindSafe(move || {
+                    let _dropped_by_unwinding = h;
+                    panic!("harness: caught panic that drops an Arc handle");
+                }));
+                None
+            }
             TlsWith { k } => {
                 let f = |v: &TlsVal| (v.owner as i64) * 16 + v.counter.get();
                 Some(if k == 0 { TLS0.with(f) } else { TLS1.with(f) })
